@@ -96,6 +96,7 @@ inductive Expr
   | range (bounds : List Expr)               -- `[f1 .. t1, f2 .. t2]`: bounds = f1, t1, f2, t2 (source order)
   | slice (a : Expr) (bounds : List Expr)    -- `a[f1 .. t1, …]` on an array, a slice, a range or a string
   | pipe (l : Expr) (f : Expr) (args : List Expr)   -- `l |> f(args)` = `f(l, args)`; a tuple `l` is unpacked
+  | dimVar (x : Name)                        -- a use of an extent / bound name of a parameter (`D` of `a[D]`, `f` of `r[f .. t]`)
 inductive Item
   | bind (isVar : Bool) (x : Name) (e : Expr)
   | funcs (fs : List Func)                   -- a maximal run of consecutive function items
@@ -170,7 +171,7 @@ mutual
 (the binders between the use and the function whose list is being built) -/
 def fvE (bound : List Name) (acc : List Name) : Expr → List Name
   | .lit _ | .enumVal _ _ => acc
-  | .var x => if x ∈ bound then acc else addFv acc x
+  | .var x | .dimVar x => if x ∈ bound then acc else addFv acc x
   | .un _ a => fvE bound acc a
   | .bin _ a b | .and a b | .or a b | .assign a b | .while a b | .doWhile a b => fvE bound (fvE bound acc a) b
   | .cond c t e => fvE bound (fvE bound (fvE bound acc c) t) e
@@ -238,6 +239,7 @@ inductive Val
   | slc (r : Option Loc)                    -- reference to a `slcObj`
   | rngObj (bounds : Array Loc)             -- the CELLS from1, to1, from2, to2, … (those the bound expressions evaluated to: shared)
   | slcObj (arr : Loc) (rng : Loc)          -- a slice: the array OBJECT and the range OBJECT
+  | dimRef (param : Loc) (k : Nat)          -- what an extent / bound name is bound to: the parameter's cell, the name's position
   deriving Inhabited
 
 abbrev Env := List (Name × Loc)
@@ -784,11 +786,6 @@ def slcLoopInit (so : Loc) : M (Option Loc × Int × Bool × Loc) := do
     pure (some ao, r)
   | _ => stuck "slice reference to a non-slice"
 
-/-- values bound to the names of a slice parameter `s[f1 .. t1, …]`: `f_k` = 0, `t_k` = |to − from| (`ID_DIM_SLICE`) -/
-def sliceDimVals : List (Int × Int) → List Int
-  | [] => []
-  | (a, b) :: rest => 0 :: (if b > a then b - a else a - b) :: sliceDimVals rest
-
 /-- the leading arguments a piped value contributes: a tuple is unpacked into its component CELLS (`RECORD_UNPACK`),
 anything else is one argument -/
 def pipeArgs (l : Loc) : M (List Loc) := do
@@ -898,61 +895,54 @@ def assignVal (vl vr : Val) : M Val :=
       pure ((convTo t vr).getD vr)
     | none => stuck "assignment of incompatible values"
 
-def bindDims : List Name → List Nat → Env → M Env
-  | [], _, e => pure e
-  | d :: ds, [], e => do
-    let c ← alloc (.int 0)
-    bindDims ds [] ((d, c) :: e)
-  | d :: ds, n :: ns, e => do
-    let c ← alloc (.int (Int32.ofNat n))
-    bindDims ds ns ((d, c) :: e)
-
-/-- extents of the array referenced by cell `l` (nil array: no extents) -/
-def arrDims (l : Loc) : M (List Nat) := do
-  match (← load l) with
-  | .arr (some o) =>
-    match (← load o) with
-    | .arrObj dims _ => pure dims
-    | _ => stuck "array parameter is not an array"
-  | .arr none => pure []
-  | _ => stuck "array parameter is not an array"
-
 /-- bind names to cells in order (innermost = last); missing cells are cell 0 -/
 def bindNames : List Name → List Loc → Env → Env
   | [], _, env => env
   | x :: xs, [], env => bindNames xs [] ((x, 0) :: env)
   | x :: xs, l :: ls, env => bindNames xs ls ((x, l) :: env)
 
-/-- the bound cells of range object `o` -/
-def rngCells (o : Loc) : M (List Loc) := do
-  match (← load o) with
-  | .rngObj bs => pure bs.toList
-  | _ => stuck "range reference to a non-range"
+/-- the value of the `k`-th extent / bound name of the parameter in cell `p`, computed WHERE THE NAME IS USED, from what
+the parameter holds then (`ID_DIM_LOCAL`, `VECREF_VEC_DEREF`, `ID_DIM_SLICE`): array — a fresh int holding the extent;
+range — the range's OWN bound cell (an alias); slice — a fresh int, 0 for a `from` name and |to − from| for a `to` name;
+a nil array / range / slice raises `nil_pointer` (here, not at the call) -/
+def dimValue (p : Loc) (k : Nat) : M Loc := do
+  match (← load p) with
+  | .arr none | .rng none | .slc none => throwE .nil_pointer
+  | .arr (some o) =>
+    match (← load o) with
+    | .arrObj dims _ =>
+      match dims[k]? with
+      | some n => alloc (.int (Int32.ofNat n))
+      | none => stuck "extent name beyond the array's dimensions"
+    | _ => stuck "array reference to a non-array"
+  | .rng (some o) =>
+    match (← load o) with
+    | .rngObj bs =>
+      match bs[k]? with
+      | some c => pure c
+      | none => stuck "bound name beyond the range's dimensions"
+    | _ => stuck "range reference to a non-range"
+  | .slc (some so) =>
+    match (← load so) with
+    | .slcObj _ ro =>
+      if k % 2 = 0 then alloc (.int 0) else do
+        let r ← rngBounds ro
+        match r[k / 2]? with
+        | some ab => alloc (.int (Int32.ofInt (if ab.2 > ab.1 then ab.2 - ab.1 else ab.1 - ab.2)))
+        | none => stuck "bound name beyond the slice's dimensions"
+    | _ => stuck "slice reference to a non-slice"
+  | _ => stuck "extent name of something that is not an array, range or slice"
 
-/-- fresh int cells for the bound names of a slice parameter -/
-def slcDimCells (so : Loc) : M (List Loc) := do
-  match (← load so) with
-  | .slcObj _ ro => do
-    let r ← rngBounds ro
-    allocInts (sliceDimVals r)
-  | _ => stuck "slice reference to a non-slice"
+/-- the names a parameter declares besides its own (`a[D1, D2]`, `r[f .. t] : range`, `s[f .. t] : T`): each is bound to a
+fresh cell holding a REFERENCE `(parameter cell, position of the name)`; nothing is looked at here (a nil argument is
+fine until a name is used), the value is `dimValue` at every use (`Expr.dimVar`) -/
+def bindDimRefs : List Name → Loc → Nat → Env → M Env
+  | [], _, _, env => pure env
+  | d :: ds, l, k, env => do
+    let c ← alloc (.dimRef l k)
+    bindDimRefs ds l (k + 1) ((d, c) :: env)
 
-def bindDimsCells (ds : List Name) (m : M (List Loc)) (env : Env) : M Env := do
-  let cells ← m
-  pure (bindNames ds cells env)
-
-def bindDimsArr (ds : List Name) (l : Loc) (env : Env) : M Env := do
-  let dims ← arrDims l
-  bindDims ds dims env
-
-/-- the names a parameter declares besides its own: `a[D1, D2]` — fresh int cells holding the extents;
-`r[f .. t] : range` — the range's OWN bound cells; `s[f .. t] : T` — fresh int cells 0 and |to − from| -/
-def bindDimsOf (ds : List Name) (l : Loc) (env : Env) : M Env := do
-  match (← load l) with
-  | .rng (some o) => bindDimsCells ds (rngCells o) env
-  | .slc (some so) => bindDimsCells ds (slcDimCells so) env
-  | .rng none | .slc none => stopM (.crash "bound names of a nil range or slice parameter")
-  | _ => bindDimsArr ds l env
+def bindDimsOf (ds : List Name) (l : Loc) (env : Env) : M Env := bindDimRefs ds l 0 env
 
 /-- bind the parameters (converted to their declared scalar types) and, for array / range / slice
 parameters, the extent / bound names — innermost = last parameter -/
@@ -1004,6 +994,13 @@ def evalE : Nat → Ctx → Env → Expr → M Loc
     | .var x =>
       match lookup x env with
       | some l => pure l
+      | none => stuck "unbound identifier"
+    | .dimVar x =>
+      match lookup x env with
+      | some l => do
+        match (← load l) with
+        | .dimRef p k => dimValue p k
+        | _ => pure l
       | none => stuck "unbound identifier"
     | .un op a => do
       let la ← evalE f ctx env a
@@ -1257,7 +1254,7 @@ def evalForIn : Nat → Ctx → Env → Name → Loc → Nat → Expr → M Loc
           | none => stuck "array object shorter than its extents"
         else alloc (.int 0)
       | _ => stuck "array reference to a non-array"
-    | .arr none => stopM (.crash "for-in over a nil array")
+    | .arr none => throwE .nil_pointer
     | .rng none | .slc none => throwE .nil_pointer
     | .rng (some ro) => do
       let r ← rngLoopInit ro
@@ -1367,7 +1364,7 @@ def evalGen : Nat → Ctx → Env → Name → Loc → Nat → List Qual → Exp
           | none => stuck "array object shorter than its extents"
         else pure ()
       | _ => stuck "array reference to a non-array"
-    | .arr none => stopM (.crash "generator over a nil array")
+    | .arr none => throwE .nil_pointer
     | .rng none | .slc none => throwE .nil_pointer
     | .rng (some ro) => do
       let r ← rngLoopInit ro
@@ -1395,7 +1392,7 @@ end
 mutual
 /-- every function of the program with the static name stack at its definition -/
 def collectE (bs : List Name) : Expr → List FunEntry
-  | .lit _ | .var _ | .enumVal _ _ => []
+  | .lit _ | .var _ | .enumVal _ _ | .dimVar _ => []
   | .un _ a => collectE bs a
   | .bin _ a b | .and a b | .or a b | .assign a b | .while a b | .doWhile a b => collectE bs a ++ collectE bs b
   | .cond c t e => collectE bs c ++ collectE bs t ++ collectE bs e
